@@ -5,7 +5,7 @@ oracle: explicit masked reductions (sum/count/min/... written with np.where
 on plain copies) and numpy.ma.apply_along_axis for 1-D callables."""
 import numpy as np
 
-from .. import gen_core, gen_ioapi, harness, ops, snapshot
+from .. import gen_core, gen_ioapi, harness, ops, readerfiles, snapshot
 from ..cli import digest
 
 PROP = 'C03'
@@ -20,6 +20,7 @@ RULE = ('random core and IOAPI files (float and small-integer payloads, '
         '(incl. median) and convolve_dim (valid/same/full); '
         'non-trivial = at least one variable has a named dimension of length '
         '>= 2; distinct = digest of (file spec, functions).')
+RULE += (" Every tenth receiver is the object one of the library's READERS returns for a valid image written by the independent codecs (CAMx memory-mapped and record readers, bpch1, bpch2, arlpackedbit, ffi1001); the call is drawn from the dimensions of the open file and judged by the same oracle on a snapshot of that file.")
 ASSUMPTIONS = [
     'reference = explicit masked reductions with np.where/count on float64 '
     '(exact ints) copies; callables via numpy.ma.apply_along_axis',
@@ -46,6 +47,11 @@ def ncases(tier):
 
 
 def gen(rng, idx, tier, seed):
+    if idx % 10 == 8:
+        # the receiver is what a library reader returns for a valid image;
+        # the call is drawn from its dimensions once it is open
+        return {'file': {'reader': readerfiles.gen_spec(rng, idx=idx // 10)},
+                'apply_seed': int(rng.integers(1 << 30)), 'idx': idx}
     ioapi = idx % 5 == 4
     if ioapi:
         fs = {'ioapi': gen_ioapi.gen_spec(rng)}
@@ -61,6 +67,12 @@ def gen(rng, idx, tier, seed):
                 vs['imax'] = 12
         fs = {'core': core}
         dims = [[d[0], d[1]] for d in core['dims']]
+    spec = gen_apply(rng, dims, idx, ioapi)
+    spec['file'] = fs
+    return spec
+
+
+def gen_apply(rng, dims, idx, ioapi, forms=True):
     nd = 1 if rng.random() < 0.6 else 2
     chosen = [dims[i] for i in rng.permutation(len(dims))[:nd]]
 
@@ -88,10 +100,10 @@ def gen(rng, idx, tier, seed):
                    str(rng.choice(PERM))]
             if not ok(fns[1], chosen[1][1]):
                 fns[1] = fns[0]
-    spec = {'file': fs, 'apply': [[c[0], f] for c, f in zip(chosen, fns)],
+    spec = {'apply': [[c[0], f] for c, f in zip(chosen, fns)],
             # the receiver is a file on disk (saved, opened again)
             'disk': bool(idx % 5 == 2)}
-    if not ioapi and len(chosen) == 1 and idx % 3 == 1:
+    if forms and not ioapi and len(chosen) == 1 and idx % 3 == 1:
         # the command-line string forms of core/_functions.py
         if idx % 2 == 1 and chosen[0][1] >= 1:
             nw = int(rng.integers(1, 4))
@@ -180,7 +192,34 @@ def run(spec, res):
 
 
 def run_in(spec, res, d, h):
+    rdr = spec['file'].get('reader')
+    if rdr:
+        f, status = readerfiles.open_reader(rdr, d)
+        res.facet('reader:%s:%s' % (rdr['kind'], status.split(':')[0]))
+        if f is None or snapshot.wellformed(f):
+            # (a malformed reader file is C01's finding)
+            res.note('reader-gave-no-file:' + status)
+            return
+        used = ops.dims_used(f)
+        numeric = all(np.dtype(f.variables[k].dtype).kind in 'fiu'
+                      for k in f.variables.keys())
+        dims = [[k, len(dm)] for k, dm in f.dimensions.items()
+                if k in used and len(dm) > 0 and
+                k not in ('VAR', 'DATE-TIME', 'nv', 'tnv')]
+        if not dims or not numeric:
+            res.note('reader-file-not-reducible')
+            return
+        res.facet('source:reader')
+        spec = dict(spec, **gen_apply(
+            np.random.default_rng([spec['apply_seed'], 78]), dims,
+            spec['idx'], ops.is_ioapi(f), forms=False))
+        spec['disk'] = False
+        return run_file(spec, res, d, h, f, ops.is_ioapi(f))
     f = build(spec['file'])
+    return run_file(spec, res, d, h, f, 'ioapi' in spec['file'])
+
+
+def run_file(spec, res, d, h, f, ioapi):
     if spec.get('form') == 'reduce_dim':
         # a dimension whose name EXTENDS the reduced one (levp1 next to lev):
         # it is another dimension and its variables are not to be touched
@@ -197,7 +236,6 @@ def run_in(spec, res, d, h):
             f = g
             res.facet('source:disk')
     before = snapshot.snap_file(f)
-    ioapi = 'ioapi' in spec['file']
     fnmap = {d: fn for d, fn in spec['apply']}
     facets = ['fn:' + fn for fn in fnmap.values()] + [
         'ndims:%d' % len(fnmap), 'ioapi' if ioapi else 'core']
@@ -246,7 +284,7 @@ def run_in(spec, res, d, h):
     nontrivial = False
     expect_len = {}
     for name, vs in before.vars.items():
-        if ioapi and name == 'TFLAG':
+        if ioapi and name in ('TFLAG', 'ETFLAG'):
             continue   # rebuilt from metadata by the IOAPI override (C10/C12)
         mine = [(vs.dims.index(d), d) for d in vs.dims if d in fnmap]
         if name not in out.variables:
@@ -335,8 +373,36 @@ def run_in(spec, res, d, h):
                 fnmap[d] == 'var' for ax, d in mine) else 1.0)
             if any(fnmap[d] == 'prod' for ax, d in mine):
                 atol = 0.0
+                a_ = np.abs(np.asarray(vs.data, 'f8'))
+                a_ = a_[a_ > 0]
+                if a_.size and (a_.min() < np.sqrt(float(np.finfo(vdt).tiny))
+                                or a_.max() > np.sqrt(float(
+                                    np.finfo(vdt).max))):
+                    # running products of such values pass through the
+                    # denormal range / overflow in the variable's own
+                    # precision: no single right answer
+                    res.note('skipped:prod-on-extreme-values')
+                    continue
+            # below the smallest normal number of the variable's type the
+            # spacing is absolute (denormals, underflow to zero)
+            atol = max(atol, float(np.finfo(vdt).tiny))
         p1 = snapshot.check_var(got, name, dims=vs.dims, data=data,
                                 mask=mask, rtol=rtol, atol=atol)
+        if p1 and vdt.kind == 'f' and vs.data.size:
+            # numpy reduces in the variable's own precision: values near the
+            # largest float32 (the CAMx images carry +-max payloads) overflow
+            # in the running sum although the exact result is representable.
+            # "The same function along the same axis" overflows as well.
+            with np.errstate(all='ignore'):
+                top = float(np.max(np.abs(np.asarray(vs.data, 'f8'))))
+                if any(fnmap[d] in ('var', 'std') for ax, d in mine):
+                    top = top * top
+                gm_ = got.mask if got.mask is not None else np.zeros(
+                    got.shape, bool)
+                if top * n * 4 > np.finfo(vdt).max and not np.all(
+                        np.isfinite(got.data[~gm_])):
+                    res.note('skipped:intermediate-overflow')
+                    continue
         if p1 and alt is not None and vdt.kind == 'f':
             p2 = snapshot.check_var(got, name, dims=vs.dims, data=alt[0],
                                     mask=alt[1], rtol=rtol, atol=atol)
@@ -363,7 +429,7 @@ def run_in(spec, res, d, h):
         a = snapshot.snap_file(out)
         b = snapshot.snap_file(out2)
         for name in a.vars:
-            if ioapi and name == 'TFLAG':
+            if ioapi and name in ('TFLAG', 'ETFLAG'):
                 continue
             va, vb = a.vars[name], b.vars.get(name)
             if vb is None or va.shape != vb.shape:
